@@ -18,6 +18,8 @@ GW = fakes.GWY_ID
 OTHER = "30:222222"  # the device the controller is overheard talking to
 MAXC = 7
 HORIZON = 420.0  # virtual seconds after which a pending transfer counts as hanging
+WINDOW = 180.0   # the freshness window of the cached change counter (ScheduleSync._schedule_version: 3 minutes)
+AGE_DEFAULT = 185  # seconds an "age" event of a scenario sleeps when it names no duration
 
 
 def zid(z: int) -> str:
@@ -179,6 +181,9 @@ class Run:
     """Executes one scenario against a real Gateway and records the trace item for SchedXferTrace.
 
     scenario = {"zones": [1,2], "h": [[kind, a, b, c, d, tt, tn], ...], "extra": {"tid:n": "slow"|"dup"}}
+    ["age", secs, ...]: secs (> WINDOW; 0 = AGE_DEFAULT) of virtual time pass while no transfer is active and no RP|0006
+    is heard - the model's AgeCache, whatever the amount; ["wait", secs, ...]: the same with any amount (no model event:
+    whether the window has been exceeded by then is measured when the next transfer is called).
     """
 
     def __init__(self, scenario: dict, verbose: bool = False) -> None:
@@ -216,6 +221,8 @@ class Run:
         self.skipped: list[str] = []
         self._last_xq: dict[int, str] = {}
         self.fresh = False  # the shadow's idea of whether the cached change counter is < 3 min old
+        self.aging = False  # an "age"/"wait" event is letting virtual time pass (not a hang)
+        self.last_vread_t: float | None = None  # loop time at which the controller last sent an RP|0006
 
     # -- recording ---------------------------------------------------------------------------
     def project(self) -> dict:
@@ -234,9 +241,16 @@ class Run:
 
     def log(self, k: str, z: int = 0, a: int = 0, b: int = 0, c: int = 0, s: str = "", q: str = "") -> None:
         if k == "age":
+            # the judge takes "age" as a fact about elapsed time (contract: a counter older than the window may not be
+            # gone by): it is only ever logged when this clock says so
+            if self.last_vread_t is not None and self.loop.time() - self.last_vread_t < WINDOW:
+                self.skipped.append("age: an RP|0006 was sent less than 3 minutes ago")
+                return
             self.fresh = False
         elif k == "heard6":
             self.fresh = True
+        elif k == "vread":
+            self.last_vread_t = self.loop.time()
         if k == "xq":
             self._last_xq[z] = s
         e = {"k": k, "z": z, "a": a, "b": b, "c": c, "s": s, "q": q, "p": self.project(),
@@ -286,8 +300,24 @@ class Run:
                 if any(not x.done for x in self.xfers.values()):
                     self.skipped.append("age while a transfer is active")
                     continue
-                await asyncio.sleep(185)
-                self.log("age")
+                secs = a or AGE_DEFAULT
+                if secs <= WINDOW:
+                    raise RuntimeError(f"age event of {secs} s: not more than the freshness window")
+                await self.let_pass(secs)
+                self.log("age", a=secs)
+            elif kind == "wait":
+                if any(not x.done for x in self.xfers.values()):
+                    self.skipped.append("wait while a transfer is active")
+                    continue
+                await self.let_pass(a)
+                self.log("wait", a=a)
+
+    async def let_pass(self, secs: float) -> None:
+        self.aging = True
+        try:
+            await asyncio.sleep(secs)
+        finally:
+            self.aging = False
 
     def _fallback_fire(self, key: tuple[int, int]) -> None:
         if key not in self.fired and key in self.trig:
@@ -476,6 +506,8 @@ class Run:
             if not pend:
                 return
             done, pend2 = await asyncio.wait(pend, timeout=HORIZON)
+            if not done and pend2 and self.aging:
+                continue  # a scripted stretch of idle time (hours, days), not a hang
             if not done and pend2:
                 for x in self.xfers.values():
                     if not x.done:
